@@ -244,6 +244,20 @@ theorem kernelkill_partial (cfg : KillCfg) (v : View) (k : Nat) (env : Env) (hd 
              by simp [List.filter_append, hRs, List.filter_cons, isStat],
              by simp [List.filter_append, hRm, List.filter_cons, isKmsg]⟩
 
+/-- **A kernelkill attempt on a cgroup that emptied after the tick sampled it leaves no record.**  When the branch's own read
+    of cgroup.events does not say `populated 1` nothing was signalled, and accordingly the oomd_kill xattrs are not written, the
+    oomd.kills counter does not move and no kill record goes to kmsg - whatever the tick's cached flag said. -/
+theorem emptied_victim_leaves_no_record (cfg : KillCfg) (v : View) (k : Nat) (env : Env) (hd : cfg.dry = false)
+    (hk : cfg.kernelKill = true) (a : Option Bool) (rest : List (Option Bool)) (he : env.events = a :: rest)
+    (ha : a ≠ some true) :
+    (tryToLogAndKill cfg v k env).evs.filter (isX .killT) = [] ∧ (tryToLogAndKill cfg v k env).evs.filter (isX .killU) = [] ∧
+    (tryToLogAndKill cfg v k env).evs.filter isStat = [] ∧ (tryToLogAndKill cfg v k env).evs.filter isKmsg = [] ∧
+    (tryToLogAndKill cfg v k env).val = false := by
+  obtain ⟨o1, c1, o2, c2, o3, c3, o4, c4, f, hevs, hv⟩ := attempt_kernel_not_populated cfg v k env hd hk a rest he ha
+  rw [hevs]
+  exact ⟨by simp [List.filter_cons, isX], by simp [List.filter_cons, isX], by simp [List.filter_cons, isStat],
+         by simp [List.filter_cons, isKmsg], hv⟩
+
 /-! ## names and numbers the property mentions (regenerated from the sources by the translator on every run) -/
 
 theorem xattr_names :
